@@ -93,13 +93,20 @@ def rep : Nat → Re → Re
 
 end Re
 
-/-- One entry of a block's `categories` list. -/
+/-- One entry of a block's `categories` list.  `compiled` is what `Regex::new(&elt.pattern)` is
+    taken to return: `some r` when the extractor could parse `pattern` in the subset of the regex
+    syntax it accepts (documented in gen/extractors/tail.py — for those `Regex::new` succeeds and means
+    `r`), `none` when it could not (then the model makes no claim: `Regex::new(..).unwrap()` is
+    modelled as a panic). -/
 structure Category where
   pattern : String
-  re : Re
+  compiled : Option Re
   category : Option String
   country : Option String
   deriving Repr
+
+/-- the compiled expression (the empty language when there is none) -/
+def Category.re (c : Category) : Re := c.compiled.getD .empty
 
 /-- One `registers` entry of patterns.json that has both `start` and `end` (the others can never be
     selected by `aircraft_information`). -/
